@@ -4,8 +4,9 @@ Written from the Michelson reference (tickets: TICKET, READ_TICKET, SPLIT_TICKET
 TICKET returns an option); independent of pytezos.
 
 Types  ('nat',) ('string',) ('unit',) ('address',) ('ticket', c) ('pair', a, b) ('option', a) ('list', a)
+       ('map', k, v) ('or', a, b)   (passive containers: no instruction of the model looks inside them)
 Values nat int | string str | unit () | address str | ticket ('T', ticketer, content, amount)
-       pair (a, b) | option None / ('Some', v) | list tuple
+       pair (a, b) | option None / ('Some', v) | list tuple | map tuple of (key, value) in key order | or ('Left', v) / ('Right', v)
 A stack is a tuple of (type, value), top first.
 
 step(instr, stack, self_address) -> ('ok', stack') | ('fail',) | ('illtyped',)
@@ -49,6 +50,10 @@ def tickets_in(ty, v):
         return [] if v is None else tickets_in(ty[1], v[1])
     if k == 'list':
         return [t for x in v for t in tickets_in(ty[1], x)]
+    if k == 'map':
+        return [t for _, x in v for t in tickets_in(ty[2], x)]
+    if k == 'or':
+        return tickets_in(ty[1] if v[0] == 'Left' else ty[2], v[1])
     return []
 
 
@@ -202,6 +207,10 @@ def val_expr(t, v):
         return {'prim': 'None'} if v is None else {'prim': 'Some', 'args': [val_expr(t[1], v[1])]}
     if k == 'list':
         return [val_expr(t[1], x) for x in v]
+    if k == 'map':
+        return [{'prim': 'Elt', 'args': [val_expr(t[1], a), val_expr(t[2], b)]} for a, b in v]
+    if k == 'or':
+        return {'prim': v[0], 'args': [val_expr(t[1] if v[0] == 'Left' else t[2], v[1])]}
     raise KeyError(k)
 
 
@@ -258,4 +267,8 @@ def val_text(t, v):
         return 'None' if v is None else f'(Some {val_text(t[1], v[1])})'
     if k == 'list':
         return '{ ' + ' ; '.join(val_text(t[1], x) for x in v) + ' }'
+    if k == 'map':
+        return '{ ' + ' ; '.join(f'Elt {val_text(t[1], a)} {val_text(t[2], b)}' for a, b in v) + ' }'
+    if k == 'or':
+        return f'({v[0]} {val_text(t[1] if v[0] == "Left" else t[2], v[1])})'
     raise KeyError(k)
